@@ -28,6 +28,108 @@ def run_property(pid, tier='quick', root='/repo', overlay=None, quiet=False,
     return rep
 
 
+def _try(pid, tier, root, prog, quiet):
+    try:
+        rep = run_property(pid, tier, root, quiet=quiet, prog=prog)
+        rep.verify_minimums()
+        return rep, None
+    except AnalysisError as e:
+        return None, e
+
+
+def _fkey(f, by_file=False):
+    return (f.rule, f.where.split('::')[0] if by_file else f.where)
+
+
+def _in_new_helper(f):
+    from rpsa.normalize import inventory
+    if '::' not in f.where:
+        return False
+    rel, qual = f.where.split('::', 1)
+    inv = inventory()
+    return rel in inv and qual not in inv[rel]
+
+
+def run_consensus(pid, tier='quick', root='/repo', overlay=None, quiet=False,
+                  prog=None):
+    """Run the rules on the tree as it is (view 0).  If that view reports
+    findings or cannot be analysed, run them again on the normalised tree
+    (view 1: freshly extracted helpers inlined, hoisted tests / cached
+    attributes propagated, comprehensions desugared - all behaviour
+    preserving).  A finding is reported only if both views have it (same rule,
+    same file); if one view cannot be analysed the other one decides; if
+    neither can, the AnalysisError of view 0 is raised."""
+    from rpsa.report import load_known, norm
+    if prog is None:
+        prog = Program(root, overlay=overlay)
+    rep0, err0 = _try(pid, tier, root, prog, quiet)
+    known = [k for k in load_known().get('known', []) if k['property'] == pid]
+
+    def is_known(f):
+        return any(k.get('rule') == f.rule and k.get('where') == f.where and
+                   norm(k.get('construct', '')) == f.construct for k in known)
+    if err0 is None and all(is_known(f) for f in rep0.findings):
+        rep0.stats['views'] = 1
+        return rep0
+    from rpsa.normalize import normalized_program
+    views = []          # (name, report or None, error or None)
+    nstats = {}
+    for name, desugar in (('inline+propagate', False),
+                          ('inline+propagate+desugar', True)):
+        try:
+            progn, nstats = normalized_program(prog, desugar=desugar)
+            repn, errn = _try(pid, tier, root, progn, True)
+        except AnalysisError as e:
+            repn, errn = None, e
+        except Exception as e:                              # noqa
+            repn, errn = None, AnalysisError(
+                'normalised view failed: %r' % e)
+        views.append((name, repn, errn))
+    good = [(n, r) for n, r, e in views if e is None]
+    if err0 is not None and not good:
+        raise err0
+    if err0 is not None:
+        # verdict from the normalised views: findings present in all of them
+        name, base = good[0]
+        base.quiet = quiet
+        base.stats['views'] = 1 + len(views)
+        base.stats['normalisation'] = nstats
+        base.info('consensus', pid, 'view 0 (tree as it is) could not be '
+                  'analysed (%s); verdict taken from the normalised view(s) %s'
+                  % (str(err0)[:200], [n for n, r in good]))
+        others = [{_fkey(f) for f in r.findings} | {_fkey(f, True)
+                                                    for f in r.findings}
+                  for n, r in good[1:]]
+        base.findings = [f for f in base.findings if is_known(f) or all(
+            _fkey(f) in o for o in others)]
+        return base
+    rep0.stats['views'] = 1 + len(views)
+    rep0.stats['normalisation'] = nstats
+    for n, r, e in views:
+        if e is not None:
+            rep0.info('consensus', pid, 'normalised view %s could not be '
+                      'analysed (%s)' % (n, str(e)[:200]))
+    seen = [{_fkey(f) for f in r.findings} | {_fkey(f, True)
+                                              for f in r.findings}
+            for n, r in good]
+    keep = []
+    for f in rep0.findings:
+        # a finding located in a freshly extracted helper moves to the caller
+        # when the helper is inlined: compare those by file only
+        key = _fkey(f, _in_new_helper(f))
+        if is_known(f) or all(key in sset for sset in seen):
+            keep.append(f)
+        else:
+            rep0.info('consensus', f.where, 'finding of %s not confirmed in '
+                      'a normalised view (shape of the code, not its '
+                      'behaviour): %s' % (f.rule, f.message[:200]), f.loc)
+            c = rep0.counts.get(f.rule)
+            if c:
+                c[1] += 1
+    rep0.findings = keep
+    return rep0
+
+
 def main(argv):
     args = list(argv)
     tier = os.environ.get('VERIF_TIER') or 'quick'
@@ -54,7 +156,7 @@ def main(argv):
         if selftest:
             from rpsa import selftest as st
             return st.main(pid, root)
-        rep = run_property(pid, tier, root)
+        rep = run_consensus(pid, tier, root)
         if tier == 'thorough':
             from rpsa import selftest as st
             st.attach(pid, root, rep)
